@@ -1,3 +1,103 @@
-(* placeholder: replaced below *)
-From PV Require Import Model.Prelude.
-Example C14_placeholder : 1 = 1. Proof. reflexivity. Qed.
+(* Property C14: impersonation keeps the connection identity and every admissible hint.
+   Per field: a value the signature fixes overrides the hint; an admissible hint is kept; an inadmissible or missing
+   hint is replaced by an admissible value -- for EVERY random tape.  (Statements about the impersonation model.) *)
+From PV Require Import Model.Prelude Model.Bits Model.Sig Model.Options Model.Imperson Proofs.ImpFieldsP.
+
+(* connection identity *)
+Theorem C14_identity : forall s b hops mtu up t x t',
+  imp_tcp s b hops mtu up t = Ok (x, t') ->
+  x_src x = b_src b /\ x_dst x = b_dst b /\ x_sport x = b_sport b /\ x_dport x = b_dport b /\ x_ver x = b_ver b /\
+  x_ttl x = s_ttl s - hops.
+Proof. exact imp_identity. Qed.
+Print Assumptions C14_identity.
+
+(* SYN bit kept; ACK bit kept unless ack+ / ack- dictate it *)
+Theorem C14_syn_ack_nature : forall s b hops mtu up t x t',
+  0 <= b_flags b < 512 ->
+  imp_tcp s b hops mtu up t = Ok (x, t') ->
+  Z.land (x_flags x) 2 = Z.land (b_flags b) 2 /\
+  Z.land (x_flags x) 16 = (if hasq qNZACK (s_quirks s) then 0 else if hasq qZACK (s_quirks s) then 16 else Z.land (b_flags b) 16).
+Proof. exact imp_flags. Qed.
+Print Assumptions C14_syn_ack_nature.
+
+(* sequence number: zero iff seq-, the base's own when it is non-zero *)
+Theorem C14_sequence_number : forall s b hops mtu up t x t',
+  imp_tcp s b hops mtu up t = Ok (x, t') ->
+  (hasq qZSEQ (s_quirks s) = true -> x_seq x = 0) /\
+  (hasq qZSEQ (s_quirks s) = false -> b_seq b <> 0 -> x_seq x = b_seq b) /\
+  (hasq qZSEQ (s_quirks s) = false -> x_seq x <> 0).
+Proof. exact imp_seq. Qed.
+Print Assumptions C14_sequence_number.
+
+
+Theorem C14_mss : forall s b up layout t opts t',
+  imp_options s b up layout t = Ok (opts, t') -> In 2 layout ->
+  exists v, out_mss opts = Some v /\
+    (s_mss s <> -1 -> v = s_mss s) /\
+    (s_mss s = -1 -> forall h, b_mss b = Some h -> fst (mss_bounds s) <= h <= snd (mss_bounds s) -> v = h) /\
+    (s_mss s = -1 -> (b_mss b = None \/ exists h, b_mss b = Some h /\ ~ (fst (mss_bounds s) <= h <= snd (mss_bounds s))) ->
+       100 <= v <= snd (mss_bounds s)).
+Proof. exact imp_mss. Qed.
+Print Assumptions C14_mss.
+
+
+Theorem C14_window_scale : forall s b up layout t opts t',
+  imp_options s b up layout t = Ok (opts, t') -> In 3 layout ->
+  exists v, out_ws opts = Some v /\
+    (s_wscale s <> -1 -> v = s_wscale s) /\
+    (s_wscale s = -1 -> forall h, b_ws b = Some h -> ws_admissible s h -> v = h) /\
+    (s_wscale s = -1 -> ws_admissible s v).
+Proof. exact imp_ws. Qed.
+Print Assumptions C14_window_scale.
+
+(* timestamps *)
+Theorem C14_timestamps : forall s b layout t opts t',
+  imp_options s b None layout t = Ok (opts, t') -> In 8 layout ->
+  exists t1 t2, out_ts opts = Some (t1, t2) /\
+    (hasq qZTS1 (s_quirks s) = true -> t1 = 0) /\
+    (hasq qZTS1 (s_quirks s) = false -> t1 <> 0 /\ forall h, b_ts1 b = Some h -> 0 < h < 4294967296 -> t1 = h) /\
+    (is_syn_base b = true -> (hasq qNZTS2 (s_quirks s) = true -> t2 <> 0 /\ forall h, b_ts2 b = Some h -> 0 < h < 4294967296 -> t2 = h)
+                             /\ (hasq qNZTS2 (s_quirks s) = false -> t2 = 0)) /\
+    (is_syn_base b = false -> forall h, b_ts2 b = Some h -> 0 <= h < 4294967296 -> t2 = h).
+Proof. exact imp_ts. Qed.
+Print Assumptions C14_timestamps.
+
+
+Theorem C14_window : forall s b hops mtu up t x t',
+  imp_tcp s b hops mtu up t = Ok (x, t') ->
+  (s_wtype s = WAny -> x_win x = b_win b) /\ (s_wtype s = WNormal -> x_win x = s_wsize s).
+Proof. exact imp_window_any. Qed.
+Print Assumptions C14_window.
+
+(* IPv4 id *)
+Theorem C14_ip_id : forall s b hops mtu up t x t',
+  b_ver b <> 6 ->
+  imp_tcp s b hops mtu up t = Ok (x, t') ->
+  let q := s_quirks s in
+  (hasq qDF q = true -> hasq qNZID q = true -> x_id x <> 0 /\ (b_id b <> 0 -> x_id x = b_id b)) /\
+  (hasq qDF q = true -> hasq qNZID q = false -> x_id x = 0) /\
+  (hasq qDF q = false -> hasq qZID q = true -> x_id x = 0) /\
+  (hasq qDF q = false -> hasq qZID q = false -> x_id x <> 0 /\ (b_id b <> 0 -> x_id x = b_id b)).
+Proof. exact imp_ip_id. Qed.
+Print Assumptions C14_ip_id.
+
+(* payload *)
+Theorem C14_payload : forall s b hops mtu up t x t',
+  imp_tcp s b hops mtu up t = Ok (x, t') ->
+  (s_pay s = -1 -> x_payload x = b_payload b) /\
+  (s_pay s = 0 -> x_payload x = []) /\
+  (s_pay s <> -1 -> s_pay s <> 0 -> (b_payload b <> [] -> x_payload x = b_payload b) /\ x_payload x <> []).
+Proof. exact imp_payload_spec. Qed.
+Print Assumptions C14_payload.
+
+Example C14_example :
+  let s := {| s_ver := 4; s_olen := 0; s_ttl := 64; s_bad_ttl := false; s_wtype := WNormal; s_wsize := 8192; s_wscale := -1;
+              s_layout := [2; 3; 8; 1]; s_mss := -1; s_eol_pad := 0; s_pay := 0; s_quirks := mask_of [qDF; qNZID] |} in
+  let b := {| b_ver := 4; b_src := [10; 0; 0; 1]; b_dst := [10; 0; 0; 2]; b_id := 7; b_ipflags := 2; b_frag := 0; b_proto := 6; b_sport := 1234;
+              b_dport := 80; b_seq := 1000; b_ack := 0; b_flags := 2; b_urg := 0; b_win := 512; b_mss := Some 1400; b_ws := Some 15;
+              b_ts1 := Some 97256; b_ts2 := Some 5; b_payload := [] |} in
+  match imp_tcp s b 0 1500 None [9] with
+  | Ok (x, _) => x_opts x = [OoMss 1400; OoWs 9; OoTs 97256 0; OoNop] /\ x_id x = 7 /\ x_seq x = 1000
+  | Err _ => False
+  end.
+Proof. vm_compute. repeat split; reflexivity. Qed.
